@@ -495,6 +495,17 @@ func offlineScenario2(name, before, during, after string, bound int, hello ...bo
 				want = append(want, tag)
 			}
 		}
+		if len(hello) > 1 && hello[1] {
+			// another goroutine emits at the very moment the reconnection is completing: from the instant the
+			// server has admitted the new socket (its CONNECT reply is on its way) the emit races the client's
+			// handling of that reply (state change + flush of the offline buffer)
+			want = append(want, "r0p", "r1p")
+			vsched.GoQuiet("racing-emitter", func() {
+				vsched.Await(func() bool { return lg.count("srv-ready") == 2 })
+				emit('p', "r0p")
+				emit('p', "r1p")
+			})
+		}
 		vsched.Await(func() bool { return lg.count("connect") == 2 && lg.count("srv-ready") == 2 })
 		for i := 0; i < len(after); i++ {
 			tag := fmt.Sprintf("a%d%c", i, after[i])
@@ -603,6 +614,8 @@ func scenarios(tier string) []*vx.Scenario {
 		offlineScenario2("offline/before=a-during=pvp-after=t", "a", "pvp", "t", b),
 		offlineScenario2("offline/during=pp", "", "pp", "", b+1),
 		offlineScenario2("offline/during=pa-server-greets-with-ack-request", "", "pa", "", b+1, true),
+		offlineScenario2("offline/during=p-emitter-races-the-reconnection", "", "p", "", b+1, false, true),
+		offlineScenario2("offline/during=none-emitter-races-the-reconnection", "", "", "", b+1, false, true),
 		reconnectScenario("reconnect/outage2-unlimited", outage{j: 2}, b),
 		reconnectScenario("reconnect/outage2-limit2", outage{j: 2, limit: 2}, b),
 		reconnectScenario("reconnect/outage1-limit3-dial-timeout", outage{j: 1, limit: 3, dialTime: 20 * time.Second}, b),
@@ -620,7 +633,7 @@ func main() {
 		Property: "C15",
 		Level:    "model_checking",
 		Rule: "back-off: full grid of (ReconnectionDelay, ReconnectionDelayMax, jitter, attempt number incl. overflowing ones, random draw) with the random draw scripted; reconnect machine: outage of j = 0..5 failed dials x attempt limit 0..5 x {refused at once, dial times out after 20 s}, each executed on the real Manager/Server pair in virtual time and judged on the timestamped reconnect_* events; " +
-			"offline traffic: all 24 orders of {plain, volatile, ack, ack+timeout} emitted while disconnected plus before/during/after placements, explored to the deviation bound. distinct_nontrivial = grid points with attempt > 0 and jitter in (0,1] + outage cases + deviating schedules",
+			"offline traffic: all 24 orders of {plain, volatile, ack, ack+timeout} emitted while disconnected plus before/during/after placements and an emitter on another goroutine racing the completion of the reconnection, explored to the deviation bound. distinct_nontrivial = grid points with attempt > 0 and jitter in (0,1] + outage cases + deviating schedules",
 		Scenarios: scenarios,
 		Budget: func(tier string) time.Duration {
 			if tier == "thorough" {
